@@ -2,6 +2,7 @@ import NauyacaVerif.Drv.Common
 import NauyacaVerif.Srv.Conn
 import NauyacaVerif.Srv.Pump
 import NauyacaVerif.Srv.Flow
+import NauyacaVerif.Srv.Sys
 namespace NauyacaVerif.Drv.SrvD
 open NauyacaVerif.Drv Srv
 
@@ -62,7 +63,26 @@ def connLine (env : Url.Env) (mw up hs : String) (evs : List String) : Option St
     some s!"ok {" ".intercalate (s.out.map showOut)} | h={s.hcalls} u={s.ucalls} m={s.mwcalls} content={toHex (if s.ucalls > 0 then s.content else [])} timer={s.timer} phase={repr s.phase} lens={",".intercalate (lens.map toString)}"
   | _, _ => some "bad-op"
 
+def parseSEv (s : String) : Option Sys.SEv :=
+  if s == "rw" then some .resume else if s == "pw" then some .pause
+  else if s.startsWith "lim:" then some (.limit (s.drop 4).toString.toNat!)
+  else (parseEv s).map .conn
+
+/-- the composed machine: request side + write pump.  Output: the pump's trace (`w<len>` per write, `close`), the response
+    the request side decided on, and the call counters -/
+def sysLine (env : Url.Env) (mw up hs : String) (evs : List String) : Option String :=
+  match parseHandler hs, evs.mapM parseSEv with
+  | some handler, some evs =>
+    let cfg : Cfg := { mw := mw == "1", upload := up == "1", handler, env }
+    let s := Sys.srun cfg (fun _ => []) evs
+    let dynamic := s.conn.out.any (fun o => match o with | .statusOnly _ => true | _ => false)
+    let showW : Flow.W → String | .write b => (if dynamic then "w~" else s!"w{b.length}") | .close => "close"
+    some s!"ok {",".intercalate (s.flow.out.map showW)} | decided={" ".intercalate (s.conn.out.map (fun o => match o with | .exact b => (if b.length ≤ 256 then showOut o else s!"W{b.length}") | _ => showOut o))} h={s.conn.hcalls} u={s.conn.ucalls} m={s.conn.mwcalls} paused={s.flow.paused} unsent={s.flow.unsent.length}"
+  | _, _ => some "bad-op"
+
 def handle : List String → Option String
+  | "sys" :: ip :: nf :: mw :: up :: hs :: evs =>
+    sysLine { asciiEnv with ipLiteralOk := fun _ => ip == "1", nfkcOk := fun _ => nf == "1" } mw up hs evs
   | "render" :: [r] =>
     match parseResp r with
     | some resp => let (h, b) := render resp; some s!"ok {toHex h} {toHex b}"
